@@ -73,11 +73,10 @@ struct clamp {
         explicit owning_data_t(Args... args)
             : m_backend(std::forward<Args>(args)...)
         {
-            m_min.fill(static_cast<typename contravariant_input_t::scalar_t>(0)
-            );
-
             for (std::size_t i = 0; i < contravariant_input_t::dimensions; ++i)
             {
+                m_min[i] =
+                    static_cast<typename contravariant_input_t::scalar_t>(0);
                 m_max[i] = m_backend.get_configuration()[i];
             }
         }
